@@ -30,10 +30,11 @@ ASSUMPTIONS = [
     "siblings being gathered, children of a new value started left to right) - the granularity of the controlled loop "
     "harness/loopctl.py, which completes a future only when the loop is quiescent; two awaitables completing in the same "
     "loop iteration of a real loop are not modelled as such",
-    "awaitables left to settle in the background after a SYNCHRONOUS failure of a later sibling (executor."
-    "settle_in_background) are recorded as orphaned and not stepped further: they lie below the position nulled by that "
-    "failure, CollectedErrors drops whatever they report; the harness checks that every completion the model cannot "
-    "replay lies at or below an orphaned position",
+    "siblings abandoned after a SYNCHRONOUS failure (executor.settle_in_background) stay in the model as background work "
+    "below the nulled position: they can be stepped like live work, their results are discarded and their errors are "
+    "dropped (CollectedErrors); a serial root starts its next field only when the previous one is done and the background "
+    "work below it has settled (the behaviour of /repo since 449e9f5); without a running loop (synchronous part of "
+    "execute() called outside a loop) abandoned coroutines are closed and never run",
     "abstract-type resolution (is_type_of/resolve_type awaitables) and async iterators are outside the modelled fragment "
     "(explored by harness/c03.py only); list items are synchronous values",
 ]
@@ -125,8 +126,9 @@ def spy_executor(captured):
     return Spy
 
 
-def run_real(schema, doc, beh, order):
-    """execute() under the controlled loop.  Returns a dict of observations."""
+def run_real(schema, doc, beh, order, lp=False):
+    """execute() under the controlled loop (lp: execute() itself is called inside the running loop).
+    Returns a dict of observations."""
     from graphql import execute
     log, captured, snap = [], [], {}
     ctl = Ctl()
@@ -141,8 +143,19 @@ def run_real(schema, doc, beh, order):
                            for lab, f in ctl.made]
         snap["ncalls"] = len([1 for ev, _ in log if ev == "call"])
 
+    def call():
+        return execute(schema, doc, w.root(), executor_class=spy) if spy else execute(schema, doc, w.root())
+
     def make(_c):
-        r = execute(schema, doc, w.root(), executor_class=spy) if spy else execute(schema, doc, w.root())
+        if lp:
+            async def inside():
+                r = call()
+                try:
+                    return (await r) if hasattr(r, "__await__") else r
+                finally:
+                    snapshot()
+            return inside()
+        r = call()
         if not hasattr(r, "__await__"):
             snapshot()
             return r
@@ -293,24 +306,27 @@ def dec_answer(out, keys, leaves):
         return None
     final = out[0]
     data, i = dec_data(out, 1, keys, leaves)
-    skipped = []
-    n = out[i]
-    i += 1
-    for _ in range(n):
-        p, i = dec_path(out, i)
-        skipped.append(keys.unpath(p))
+    lists = []
+    for _ in range(2):
+        n = out[i]
+        i += 1
+        cur = []
+        for _ in range(n):
+            p, i = dec_path(out, i)
+            cur.append(keys.unpath(p))
+        lists.append(cur)
     n = out[i]
     i += 1
     evs = []
     for _ in range(n):
-        t = out[i]
-        p, i = dec_path(out, i + 1)
+        t, bg = out[i], out[i + 1]
+        p, i = dec_path(out, i + 2)
         if t == 2:
             o, i = dec_path(out, i)
-            evs.append(("err", keys.unpath(p), keys.unpath(o)))
+            evs.append(("err", bool(bg), keys.unpath(p), keys.unpath(o)))
         else:
-            evs.append((("call", "done", None, "cancel", "orphan")[t], keys.unpath(p)))
-    return {"final": final == 1, "data": data if final == 1 else None, "skipped": skipped, "events": evs}
+            evs.append((("call", "done", None, "cancel", "orphan")[t], bool(bg), keys.unpath(p)))
+    return {"final": final == 1, "data": data if final == 1 else None, "skipped": lists[0], "pending": lists[1], "events": evs}
 
 
 def below(p, roots):
@@ -321,21 +337,22 @@ def below(p, roots):
 # --------------------------------------------------------------------------- one comparison
 
 
-def observe(schema, q, doc, beh, order, tree_info):
+def observe(schema, q, doc, beh, order, tree_info, lp=False):
     """Run the implementation under `order`; returns the observations and the model request (the schedule is the
     completion order the loop actually used)."""
     root, leaves, _paths = tree_info
-    obs = run_real(schema, doc, beh, order)
+    obs = run_real(schema, doc, beh, order, lp)
     keys = Keys()
     wire_tree = enc_node(root, keys)
     sched = [keys.path(p) for p in obs["completed"]]
-    wire = [1] + wire_tree + [len(sched)] + [x for p in sched for x in [len(p)] + p]
-    return {"q": q, "beh": beh, "order": order, "obs": obs, "keys": keys, "wire": wire, "root": root, "leaves": leaves}
+    wire = [1, int(lp)] + wire_tree + [len(sched)] + [x for p in sched for x in [len(p)] + p]
+    return {"q": q, "beh": beh, "order": order, "obs": obs, "keys": keys, "wire": wire, "root": root, "leaves": leaves,
+            "lp": lp}
 
 
-def compare(ck, m, schema, q, doc, beh, order, tree_info, rep_extra=None):
+def compare(ck, m, schema, q, doc, beh, order, tree_info, rep_extra=None, lp=False):
     """One request through implementation and model."""
-    o = observe(schema, q, doc, beh, order, tree_info)
+    o = observe(schema, q, doc, beh, order, tree_info, lp)
     judge(ck, o, m.run_batch([o["wire"]])[0], rep_extra)
 
 
@@ -344,10 +361,10 @@ def judge(ck, o, out, rep_extra=None):
     ans = dec_answer(out, keys, leaves)
     n_async = count_nodes(root, lambda n: n[2])
     n_err = count_nodes(root, lambda n: n[3] == 0 or (n[3] == 1 and n[1]))
-    canon = (q, repr(sorted(beh.items())), tuple(order))
+    canon = (q, repr(sorted(beh.items())), tuple(order), o.get("lp", False))
     ck.note_case(("casync",) + canon, nontrivial=n_async >= 2 and n_err >= 1)
-    key = f"async-model:{q}:{sorted(beh.items())!r}:{tuple(order)!r}"
-    rep = {"kind": "casync", "query": q, "behaviours": [[list(p), mo, wh] for p, (mo, wh) in sorted(beh.items(), key=repr)],
+    key = f"async-model:{q}:{sorted(beh.items())!r}:{tuple(order)!r}:{o.get('lp', False)}"
+    rep = {"kind": "casync", "lp": o.get("lp", False), "query": q, "behaviours": [[list(p), mo, wh] for p, (mo, wh) in sorted(beh.items(), key=repr)],
            "order": [list(p) for p in order], "completed": [list(p) for p in obs["completed"]], "wire": wire}
     if rep_extra:
         rep.update(rep_extra)
@@ -361,18 +378,24 @@ def judge(ck, o, out, rep_extra=None):
     res = obs["result"]
     f = res.formatted
     evs = ans["events"]
-    m_errs = [(a, o) for t, a, *r in evs if t == "err" for o in r]
-    m_cancel = {p for t, p, *_ in evs if t == "cancel"}
-    m_orphan = {p for t, p, *_ in evs if t == "orphan"}
-    m_calls = [p for t, p, *_ in evs if t == "call" and not isinstance(p[-1], int)]
+    lp = o.get("lp", False)
+    m_errs = [(e[2], e[3]) for e in evs if e[0] == "err" and not e[1]]
+    m_cancel = {e[2] for e in evs if e[0] == "cancel"}
+    m_orphan = {e[2] for e in evs if e[0] == "orphan"}
+    m_calls = [e[2] for e in evs if e[0] == "call" and not isinstance(e[2][-1], int)]
+    m_done = {e[2] for e in evs if e[0] == "done"}
+    # awaitables abandoned by the synchronous part of execute() outside a running loop are closed: they never run
+    first_step = next((i for i, e in enumerate(evs) if e[0] == "done"), len(evs))
+    m_closed = set() if lp else {e[2] for e in evs[:first_step] if e[0] == "orphan"}
+    m_pending = set(ans["pending"])
     diffs = []
     if not ans["final"]:
-        diffs.append("the implementation delivered a response but the model still has pending awaitables after the same completions")
+        diffs.append("the implementation delivered a response but the model's root is not done after the same completions")
     else:
         if plain(ans["data"]) != f.get("data"):
             diffs.append(f"data: impl {f.get('data')!r} model {plain(ans['data'])!r}")
         r_paths = [tuple(e.get("path") or ()) for e in (f.get("errors") or [])]
-        mo_paths = [o for _, o in m_errs]
+        mo_paths = [o_ for _, o_ in m_errs]
         if set(r_paths) != set(mo_paths) or len(r_paths) != len(mo_paths):
             diffs.append(f"reported error paths: impl {sorted(r_paths, key=repr)} model {sorted(mo_paths, key=repr)}")
         elif r_paths != mo_paths:
@@ -389,36 +412,33 @@ def judge(ck, o, out, rep_extra=None):
             if f.get("data") is not None else {()}
         if vis_model != vis_impl:
             diffs.append(f"positions nulled in data: impl {sorted(vis_impl, key=repr)} model {sorted(vis_model, key=repr)}")
-    # futures: cancelled / left to the background
+    # futures at the moment the response is delivered: cancelled / still pending (background work, closed coroutines)
     futs = dict(obs["futures"])
     r_cancel = {lab for lab, stt in futs.items() if stt == "cancelled"}
     r_pending = {lab for lab, stt in futs.items() if stt == "pending"}
-    m_done = {p for t, p, *_ in evs if t == "done"}
-    if not (m_cancel <= r_cancel and all(below(p, m_cancel | m_orphan) for p in r_cancel)):
-        diffs.append(f"cancelled futures: impl {sorted(r_cancel, key=repr)} model cancelled {sorted(m_cancel, key=repr)} orphaned {sorted(m_orphan, key=repr)}")
-    if not all(below(p, m_orphan) for p in r_pending):
-        diffs.append(f"futures still pending when the response was delivered {sorted(r_pending, key=repr)} are not below a position the model "
-                     f"leaves to the background {sorted(m_orphan, key=repr)}")
-    if not all(below(p, m_orphan) for p in ans["skipped"]):
-        diffs.append(f"completions the model cannot replay {ans['skipped']} are not below an orphaned position {sorted(m_orphan, key=repr)}")
-    if not m_orphan <= set(futs):
-        diffs.append(f"model orphans {sorted(m_orphan - set(futs), key=repr)} have no future in the implementation")
-    for lab in futs:
-        if not (lab in m_done or below(lab, m_cancel | m_orphan)):
-            diffs.append(f"future {lab} of the implementation is neither completed, cancelled nor orphaned in the model")
-            break
-    # resolver invocations, without those made by background work
+    r_done = {lab for lab, stt in futs.items() if stt == "done"}
+    if r_cancel != m_cancel:
+        diffs.append(f"cancelled futures: impl {sorted(r_cancel, key=repr)} model {sorted(m_cancel, key=repr)}")
+    if r_pending != (m_pending | m_closed) - r_done:
+        diffs.append(f"futures pending when the response was delivered: impl {sorted(r_pending, key=repr)} model pending "
+                     f"{sorted(m_pending, key=repr)} closed {sorted(m_closed, key=repr)}")
+    if not set(ans["skipped"]) <= m_closed:
+        diffs.append(f"completions the model cannot replay {ans['skipped']} are not awaitables closed by the synchronous part {sorted(m_closed, key=repr)}")
+    if r_done != (m_done | set(ans["skipped"])):
+        diffs.append(f"completed futures: impl {sorted(r_done, key=repr)} model {sorted(m_done, key=repr)} + skipped {ans['skipped']}")
+    # resolver invocations of the whole run, background work included
+    r_calls_all = [p for ev, p in obs["log"] if ev == "call"][:obs["ncalls_at_finish"]]
+    if r_calls_all != m_calls:
+        diffs.append(f"resolver invocation sequence: impl {r_calls_all} model {m_calls}")
     r_calls_all = [p for ev, p in obs["log"] if ev == "call"]
-    strictly_below = lambda p: any(len(p) > len(r) and p[:len(r)] == r for r in m_orphan)  # noqa: E731
-    r_calls = [p for p in r_calls_all if not strictly_below(p)]
-    if r_calls != m_calls:
-        diffs.append(f"resolver invocation sequence: impl {r_calls} model {m_calls}")
     if m_orphan:
-        ck.count("casync_runs_with_orphans")
+        ck.count("casync_runs_with_abandoned_awaitables")
     if m_cancel:
         ck.count("casync_runs_with_cancellation")
-    if ans["skipped"]:
-        ck.count("casync_runs_with_background_completions")
+    if any(e[1] for e in evs):
+        ck.count("casync_runs_with_background_steps")
+    if lp:
+        ck.count("casync_runs_inside_running_loop")
     for d in diffs[:3]:
         ck.violation(key, "model Exec/Async.v vs execute(): " + d,
                      dict(rep, relation="extracted model = implementation", impl=f, model_events=[list(map(str, e)) for e in evs][:60]))
@@ -497,7 +517,7 @@ def exhaustive_small(ck, m):
         for i in range(n):
             t += gen(2, i)
         if n_async[0] <= 6:
-            cases.append([4] + t + [12])
+            cases.append([4, rng.randint(0, 1)] + t + [12])
         n_async[0] = 0
     outs = m.run_batch(cases)
     for c, o in zip(cases, outs):
@@ -531,7 +551,8 @@ def core(ck, tier, model_ok, budget_s=None):
         run_corpus_case(ck, m, schema, c)
     for q, beh, order in FIXED:
         doc = parse(q)
-        compare(ck, m, schema, q, doc, beh, order, derive_tree(schema, doc, beh))
+        for lp in (False, True):
+            compare(ck, m, schema, q, doc, beh, order, derive_tree(schema, doc, beh), lp=lp)
     queries = [q for q in c03.QUERIES + EXTRA_QUERIES]
     docs = [(q, parse(q)) for q in queries]
     base = {}
@@ -555,7 +576,8 @@ def core(ck, tier, model_ok, budget_s=None):
             beh = gen_behaviours(rng, paths, trial, p_async=rng.choice([0.3, 0.5]))
             info = derive_tree(schema, doc, beh)
             labels = [p for p, (mo, _) in sorted(beh.items(), key=repr) if mo == "async"]
-            batch = [observe(schema, q, doc, beh, order, info) for order in orders_for(rng, labels, quick)]
+            lp = rng.random() < 0.5
+            batch = [observe(schema, q, doc, beh, order, info, lp) for order in orders_for(rng, labels, quick)]
             for o, out in zip(batch, m.run_batch([o["wire"] for o in batch])):
                 judge(ck, o, out)
                 nruns += 1
@@ -566,9 +588,11 @@ def core(ck, tier, model_ok, budget_s=None):
     rule = ("CASYNC: the queries of c03 plus 8 with deeper non-null chains and serial roots x generated behaviour tables (each resolver "
             "position sync/awaitable x value/null/raise) x completion orders (all permutations up to 3 (quick) / 4 (thorough) awaitables, "
             "else sampled + FIFO + LIFO); execute() under the controlled loop vs the extracted model run with the completion order actually "
-            "used: data, CollectedErrors positions, reported error paths, cancelled futures, futures left to the background, sequence of "
-            "resolver invocations; plus all complete schedules of 300 small random trees enumerated inside the model against its "
-            "synchronous run. non-trivial = at least 2 awaitable positions and at least one failing position")
+            "used, execute() called outside or inside the running loop: data, CollectedErrors positions, reported error paths, futures "
+            "cancelled / completed / pending at delivery, sequence of resolver invocations incl. background work; direct predicate: no "
+            "resolver below mutation root i runs after root j>i started; plus all maximal schedules of 300 small random trees enumerated "
+            "inside the model against its synchronous run (data, outermost nulled positions, error cover, serial order). "
+            "non-trivial = at least 2 awaitable positions and at least one failing position")
     ck.rule = (ck.rule + " || " + rule) if ck.rule else rule
 
 
@@ -585,7 +609,7 @@ def run_corpus_case(ck, m, schema, c):
     if info is None:
         ck.count("corpus_case_unusable")
         return
-    compare(ck, m, schema, c["query"], doc, beh, order, info)
+    compare(ck, m, schema, c["query"], doc, beh, order, info, lp=bool(c.get("lp", False)))
 
 
 def build():
